@@ -125,11 +125,13 @@ def actTraceOut (i : Info) (l : Layout) (c : Nat) (entry : Entry) (T : List Nat)
       | [a, b] => envOrder (envCombine l (if i.isFock a then a else b) (if i.isFock a then b else a)) [a, b]
       | _ => l
 
-/-- `resize`: inside a product space the Fock is first moved to the front -/
-def actResize (l : Layout) (f : Nat) : Layout :=
+/-- `resize`: inside a product space the Fock is first moved to the front; inside a combined
+envelope a request that does not grow the space reads the reduced state of the Fock first
+(`Envelope.trace_out`), which moves it to the front -/
+def actResize (l : Layout) (f : Nat) (shrink : Bool) : Layout :=
   match inPs l f with
   | some c => reorder l c [f]
-  | none => l
+  | none => if shrink then envOrder l [f] else l
 
 /-- routing part of `CompositeEnvelope.measure_POVM` (before any retirement) -/
 def cePovm (l : Layout) (c : Nat) (T : List Nat) : Layout :=
